@@ -242,6 +242,9 @@ func (ts *TermStore) And(a, b *Term) *Term {
 	if a == b {
 		return a
 	}
+	if a.ID > b.ID {
+		a, b = b, a
+	}
 	return ts.mk(OAnd, SortBool, 0, 0, 0, "", a, b)
 }
 func (ts *TermStore) Or(a, b *Term) *Term {
@@ -259,6 +262,9 @@ func (ts *TermStore) Or(a, b *Term) *Term {
 	}
 	if a == b {
 		return a
+	}
+	if a.ID > b.ID {
+		a, b = b, a
 	}
 	return ts.mk(OOr, SortBool, 0, 0, 0, "", a, b)
 }
@@ -498,6 +504,12 @@ func (ts *TermStore) BvBin(op Op, a, b *Term) *Term {
 			return a
 		}
 	}
+	switch op {
+	case OBvAdd, OBvMul, OBvAnd, OBvOr, OBvXor:
+		if a.ID > b.ID {
+			a, b = b, a
+		}
+	}
 	return ts.mk(op, a.S, 0, 0, 0, "", a, b)
 }
 
@@ -665,6 +677,13 @@ func (ts *TermStore) FpBin(op Op, a, b *Term) *Term {
 			r = math.Max(x, y)
 		}
 		return ts.F64Const(r)
+	}
+	switch op {
+	case OFpAdd, OFpMul:
+		// IEEE addition and multiplication are commutative (NaN payloads are not modelled by SMT-LIB)
+		if a.ID > b.ID {
+			a, b = b, a
+		}
 	}
 	return ts.mk(op, a.S, 0, 0, 0, "", a, b)
 }
